@@ -390,6 +390,18 @@ impl HttpConn {
     }
 }
 
+/// Wait until a TCP connect to `addr` succeeds (a tracker opens its IPv4 and IPv6 listeners one after the other)
+pub fn wait_tcp(addr: SocketAddr, secs: u64) -> bool {
+    let t0 = Instant::now();
+    while t0.elapsed() < Duration::from_secs(secs) {
+        if TcpStream::connect_timeout(&addr, Duration::from_millis(200)).is_ok() {
+            return true;
+        }
+        std::thread::sleep(Duration::from_millis(20));
+    }
+    false
+}
+
 pub fn find(h: &[u8], n: &[u8]) -> Option<usize> {
     h.windows(n.len()).position(|w| w == n)
 }
